@@ -91,6 +91,8 @@ def gen_sig_type(rng, stratum, with_td):
                 continue
             if _HIER.search(e):
                 continue
+            if rng.random() < 0.06:
+                e = rng.choice(["Tuple[{e}, ...]", "List[Tuple[{e}, ...]]", "Optional[Tuple[{e}, ...]]"]).format(e=e)
             return e
         return "int"
     finally:
@@ -268,7 +270,9 @@ TD_WRAPS = ["{t}", "List[{t}]", "Dict[str, {t}]", "Tuple[{t}, int]", "Optional[{
             "Tuple[{t}, {u}]", "Dict[int, List[{t}]]", "Tuple[List[{t}]]",
             # two TypedDicts at sibling positions, each further down its own container (unambiguous under the documented naming)
             "Tuple[List[{t}], List[{u}]]", "Tuple[{t}, List[{u}]]", "Tuple[int, List[{t}], Set[int], List[{u}]]", "Union[List[{t}], Tuple[int, int, {u}]]",
-            "Dict[str, Tuple[{t}, List[{u}]]]", "Tuple[List[{t}], Tuple[int, {u}]]"]
+            "Dict[str, Tuple[{t}, List[{u}]]]", "Tuple[List[{t}], Tuple[int, {u}]]",
+            # homogeneous tuples (only a rewriter produces them - RewriteLargeUnion, or a custom one - but then they reach the renderer)
+            "Tuple[{t}, ...]", "List[Tuple[{t}, ...]]", "Dict[str, Tuple[{t}, ...]]"]
 
 
 # annotations that only a source file can contribute (inference never produces them) and that the renderer must still spell faithfully
